@@ -814,13 +814,13 @@ pub fn run(t: &mut Toks) -> Result<String, Bad> {
                 if i != 0 {
                     s.push(',');
                 }
-                s.push(if sess.is_invalidated(op) {
-                    'I'
-                } else if sess.is_pending(op) {
-                    'P'
-                } else {
-                    'C'
-                });
+                // all three public predicates are consulted: exactly one of them must hold
+                match (sess.is_invalidated(op), sess.is_pending(op), sess.is_complete(op)) {
+                    (true, false, false) => s.push('I'),
+                    (false, true, false) => s.push('P'),
+                    (false, false, true) => s.push('C'),
+                    (i, p, c) => write!(s, "X{}{}{}", i as u8, p as u8, c as u8).unwrap(),
+                }
             }
             s.push(']');
             shared.borrow_mut().log.push(s);
